@@ -173,8 +173,8 @@ def template_text(e):
     return out
 
 def extract(F, c):
-    t = c.thir['sudoku_gen::main']
-    lib_closures = c.thir
+    t = c.ithir['sudoku_gen::main']
+    lib_closures = c.ithir
     cx = Ctx()
     body = t['body']
     while body['k'] in ('Use', 'NeverToAny'): body = body['source']
@@ -297,7 +297,7 @@ ROOT = pv('root'); SQ = pv('square'); NC = pv('numcells')
 
 def rule_sudoku(F, R):
     c = F.crate('sudoku_gen')
-    if c is None or 'sudoku_gen::main' not in c.thir:
+    if c is None or 'sudoku_gen::main' not in c.ithir:
         R.violation('sudoku_gen::main / U / anchor', 'UNDECIDABLE', 'sudoku_gen::main not found'); return
     try:
         cx, emissions, hints, filters, texts, size_defs = extract(F, c)
@@ -376,7 +376,7 @@ def rule_sudoku(F, R):
     # whitespace is ignored: the input is filtered by !is_whitespace before indexing
     okf = False
     for name, cl, _var in filters:
-        ct = c.thir.get(cl) if cl else None
+        ct = c.ithir.get(cl) if cl else None
         if ct is not None:
             b = strip(ct['body'])
             neg = False
@@ -389,7 +389,7 @@ def rule_sudoku(F, R):
     if not tail_true: R.violation('sudoku_gen::main / U / closing conjunct', 'U', 'the conjunction must be closed by `true`')
 
 def classify(F, c, em, gcx):
-    ct = c.thir.get(em['closure'])
+    ct = c.ithir.get(em['closure'])
     if ct is None: raise UUndec('closure body not found')
     cx = Ctx(); cx.names = dict(em['names']); cx.defs = dict(em['defs'])
     p = [unwrap_pat(x['pat']) for x in ct['params'][1:] if 'pat' in x]
